@@ -13,6 +13,7 @@ CONSTANTS
     LandmarkOwnStream = TRUE
     KeepLastDup = TRUE
     ReservedByFullName = TRUE
+    RefuseUnknownType = TRUE
 SPECIFICATION TraceSpec
 CONSTRAINT HighWater
 INVARIANTS TocAddressesRightBytes ChunksTileFile OffsetsUniquePerStreamStart EntriesPreserved DiffIDIsHashOfDecompressed TocDigestIsHashOfTocJSON LosslessIdentity
